@@ -160,16 +160,51 @@ pub struct Stats {
 
 /// One case: optional earlier position command (`prev`), then `position start moves h`, then a
 /// depth-1 search. Returns the number of candidates judged.
+/// Commands a GUI may send between `position` and `go`. None of them touches the game: the history
+/// given by the position command still counts when the search starts.
+pub const INTERLUDES: &[&str] = &[
+    "isready",
+    "uci",
+    "setoption name Hash value 32",
+    "setoption name Clear Hash",
+    "setoption name Ponder value false",
+    "debug on",
+    "stop",
+    "ponderhit",
+    "xyzzy",
+];
+
+pub static INTERLUDE_CASES: AtomicU64 = AtomicU64::new(0);
+
 pub fn check_history(fl: &mut Option<Flounder>, cache: &RefCache, rep: &Report, st: &Stats, start: &str, prev: Option<&[Mv]>, h: &[Mv]) {
-    check_history_limit(fl, cache, rep, st, start, prev, h, None);
+    check_history_limit(fl, cache, rep, st, start, prev, h, None, None);
     if prev.is_none() {
         // the same case searched under a clock that never expires (10^7 ms of the node clock):
         // a time limit that is not reached must not change what the search concludes
-        check_history_limit(fl, cache, rep, st, start, prev, h, Some(10_000_000));
+        check_history_limit(fl, cache, rep, st, start, prev, h, Some(10_000_000), None);
+        // histories in which the rule decides something (some successor would be a third
+        // occurrence): the same case with one more command between `position` and a real
+        // `go depth 1` sent through the command handler
+        let mut game = vec![start_pos(start)];
+        for m in h {
+            let n = game.last().unwrap().make(*m);
+            game.push(n);
+        }
+        let root = game.last().unwrap().clone();
+        let decisive = root.legal_moves().iter().any(|m| {
+            let (strict, fide) = occurrences(&game, &root.make(*m));
+            strict >= 2 && fide >= 2
+        });
+        if decisive {
+            for c in INTERLUDES {
+                INTERLUDE_CASES.fetch_add(1, Ordering::Relaxed);
+                check_history_limit(fl, cache, rep, st, start, prev, h, None, Some(c));
+            }
+        }
     }
 }
 
-pub fn check_history_limit(fl: &mut Option<Flounder>, cache: &RefCache, rep: &Report, st: &Stats, start: &str, prev: Option<&[Mv]>, h: &[Mv], limit_ms: Option<u64>) {
+pub fn check_history_limit(fl: &mut Option<Flounder>, cache: &RefCache, rep: &Report, st: &Stats, start: &str, prev: Option<&[Mv]>, h: &[Mv], limit_ms: Option<u64>, interlude: Option<&str>) {
     let p0 = start_pos(start);
     let mut game = vec![p0.clone()];
     for m in h {
@@ -187,8 +222,14 @@ pub fn check_history_limit(fl: &mut Option<Flounder>, cache: &RefCache, rep: &Re
         Some(ms) => format!("{} | time limit {} ms (never reached)", sig_tail, ms),
         None => sig_tail,
     };
-    let limit = limit_ms.map(std::time::Duration::from_millis);
-    if limit_ms.is_some() {
+    let sig_tail = match interlude {
+        Some(c) => format!("{} | {} | go depth 1 (through the command handler)", sig_tail, c),
+        None => sig_tail,
+    };
+    // the variants (time limit, interlude) re-run a case already counted
+    let limit_ms = if interlude.is_some() { Some(0) } else { limit_ms };
+    let limit = if interlude.is_some() { None } else { limit_ms.map(std::time::Duration::from_millis) };
+    if limit_ms.is_some() && interlude.is_none() {
         st.limited.fetch_add(1, Ordering::Relaxed);
     }
     let mut args = vec!["c09-one".to_string(), "--start".into(), start.to_string(), "--moves".into(), h.iter().map(|m| m.uci()).collect::<Vec<_>>().join(" ")];
@@ -211,21 +252,32 @@ pub fn check_history_limit(fl: &mut Option<Flounder>, cache: &RefCache, rep: &Re
         }
     }
     let f = fl.as_mut().unwrap();
-    let _job = crate::watch::enter(format!("C09 {} no-answer", sig_tail), format!("{}: no answer after {} s of wall time", sig_tail, crate::watch::LIMIT_S), args.clone());
+    let _job = crate::watch::enter(format!("C09 {} no-answer", sig_tail), format!("{}: no answer after {} s of CPU time", sig_tail, crate::watch::LIMIT_S), args.clone());
     let r = guard(|| {
         f.verif_handle_command("ucinewgame");
         if let Some(pc) = &prev_cmd {
             f.verif_handle_command(pc);
         }
         f.verif_handle_command(&cmd);
+        if let Some(c) = interlude {
+            f.verif_handle_command(c);
+        }
         let b: Board = *f.verif_board();
         crate::search::verif::set_repetition_trace(true);
-        let (score, mv) = f.verif_searcher().find_best_move(&b, 1, limit);
+        let (score, mv) = if interlude.is_some() {
+            // the real go command: whatever the handler does between the command and the search
+            // is part of the case; its score is not visible here, the decisions at ply 1 are
+            crate::search::verif::set_dry_run(false);
+            f.verif_handle_command("go depth 1");
+            (0, None)
+        } else {
+            f.verif_searcher().find_best_move(&b, 1, limit)
+        };
         let trace = crate::search::verif::take_repetition_trace();
         // the same decision at every ply of a deeper search (the test precedes the table probe
         // in negamax, so whatever the depth-1 search cached cannot hide a node's decision)
         let deep_depth = DEEP_DEPTH.load(Ordering::Relaxed) as u8;
-        let deep = if deep_depth > 1 && ((prev_cmd.is_none() && limit.is_none()) || DEEP_PAIRS.load(Ordering::Relaxed) != 0) {
+        let deep = if interlude.is_none() && deep_depth > 1 && ((prev_cmd.is_none() && limit.is_none()) || DEEP_PAIRS.load(Ordering::Relaxed) != 0) {
             let _ = f.verif_searcher().find_best_move(&b, deep_depth, limit);
             crate::search::verif::take_repetition_trace()
         } else {
@@ -373,7 +425,7 @@ pub fn check_history_limit(fl: &mut Option<Flounder>, cache: &RefCache, rep: &Re
             _ => None,
         };
     }
-    if legal.is_empty() || any_ambiguous {
+    if legal.is_empty() || any_ambiguous || interlude.is_some() {
         return;
     }
     if let Some(want) = expected_best {
@@ -704,7 +756,9 @@ pub fn run(tier: &str, seed: u64, out: &str) {
         .set("traces_validated_against_impl", h)
         .set("evaluations", h)
         .set("distinct_nontrivial", st.draws_expected.load(Ordering::Relaxed) + st.once_seen.load(Ordering::Relaxed))
-        .set("rule", "a case = one command history (ucinewgame, optional earlier position command, position with a move list) followed by the real depth-1 search; every successor of the root is a candidate; non-trivial candidates are those whose position occurred once (must not be a draw) or at least twice (must be a draw) earlier in the game")
+        .set("cases_with_a_command_between_position_and_go", INTERLUDE_CASES.load(Ordering::Relaxed))
+        .set("commands_between_position_and_go", INTERLUDES.iter().map(|c| c.to_string()).collect::<Vec<_>>())
+        .set("rule", "a case = one command history (ucinewgame, optional earlier position command, position with a move list) followed by the real depth-1 search (for histories with a third occurrence among the successors also: one more command, then a real `go depth 1` through the handler); every successor of the root is a candidate; non-trivial candidates are those whose position occurred once (must not be a draw) or at least twice (must be a draw) earlier in the game")
         .set("histories", h)
         .set("candidate_successors", st.candidates.load(Ordering::Relaxed))
         .set("candidates_that_are_third_occurrences", st.draws_expected.load(Ordering::Relaxed))
